@@ -276,6 +276,8 @@ def hooks_loop(x, node, st):
 def install(x, ctx=None):
     x.ghost = {}
     x.loop_handlers[("GCodeBuilder._prepare_move", 1)] = hooks_loop
+    # the same contract for a loop over the (symbolic) hook list wherever it lives, e.g. after the loop was moved into a helper method
+    x.iter_handlers.append((lambda it, st: isinstance(it, VRef) and bool(st.heap.get(it.oid, {}).get("$sym")), hooks_loop))
     c = x.contracts
     c[("DefaultFormatter", "parameters")] = h_fmt_parameters
     c[("DefaultFormatter", "command")] = h_fmt_command
